@@ -20,6 +20,10 @@ RelOp(op, r, v) ==
     [] op = "glob" -> Glob(r.v, v.v)
     [] op = "intersect" -> Intersect(r, v).v
     [] op = "difference" -> Difference(r, v).v
+\* present / absent: about the attribute itself.  res = "missing" (the resource has no such attribute), "null", or "value" (a
+\* non-empty value).  (Empty strings / lists / zero are not generated: Custodian and the helper library differ on them and the
+\* statement does not say.)
+Presence(value, res) == IF value = "present" THEN res = "value" ELSE res \in {"missing", "null"}
 Ordering == {"gt", "greater-than", "ge", "gte", "lt", "less-than", "le", "lte"}
 \* value_type transforms (the resource side unless stated): size, integer, normalize, unique_size; swap exchanges the operands;
 \* age: (now - r) compared with v days;  expiration: (r - now) compared with v days   (r a timestamp, v a day count)
